@@ -11,7 +11,7 @@ class Lin(Sym):
     """linear term  c + sum(coeff_i * atom_i)  over non-negative leaf symbols (lengths)"""
 
     def __init__(self, terms, c=0, ty="usize"):
-        self.terms = {k: v for k, v in terms.items() if v != 0}
+        self.terms = {k: v for k, v in terms.items() if v[1] != 0}
         self.c = c
         lo = hi = c
         for a, k in self.terms.values():
@@ -29,6 +29,8 @@ class Lin(Sym):
         if isinstance(v, Lin):
             return v
         if isinstance(v, Sym):
+            if v.op == "cast" and len(v.args) == 1 and isinstance(v.args[0], Lin) and v.ty in ("u64", "usize"):
+                return v.args[0]
             return Lin({v.id: (v, 1)}, 0, v.ty)
         return Lin({}, int(v))
 
@@ -586,6 +588,7 @@ class AbsMemo:
 
     def mat(self, I):
         if self.keys_ is None:
+            I.run.event("memo_inspected")
             c = I.run.choose(len(self.classes), "memo size class")
             self.n0 = self.classes[c]
             self.keys_ = set(range(self.n0))
@@ -772,7 +775,9 @@ class AbsOutput:
         return "AbsOutput(%d writes)" % len(self.writes)
 
     def _add_len(self, I, n):
-        self.cur_len = I.binop("Add", self.cur_len, n, "usize")
+        if hasattr(n, "resolve"):
+            n = n.resolve(I)
+        self.cur_len = Lin.of(self.cur_len).combine(n, 1)
 
     def length(self, I):
         I.run.event("out_len_read", self.cur_len, len(self.writes))
@@ -1063,6 +1068,7 @@ class Ctx:
                 raise Unanalysable("unknown field Generator.%s (no role)" % n)
             gfields.append(special[n])
         g = Agg(self.gen_adt, 0, gfields)
+        self.last_special = special
         h = GenHandle(self, g, st, memo, out, muts, special, proto_emitted, ver)
         return h
 
@@ -1081,6 +1087,22 @@ class GenHandle:
     def flag(self, name):
         v = self.special[name]
         return v.value if isinstance(v, LazyBool) else v
+
+    CONFIG = ("seed", "bufsize", "min_opcodes", "max_opcodes", "mutators", "mutation_rate", "unsafe_mutations",
+              "allow_ext_opcodes", "allow_buffer_opcodes")
+
+    def config_changes(self):
+        """configuration fields whose value object was replaced during the run"""
+        out = []
+        names = self.ctx.fields(self.ctx.gen_adt)
+        for i, n in enumerate(names):
+            if n in self.CONFIG and self.g.fields[i] is not self.special[n]:
+                out.append(n)
+        st = self.g.fields[names.index("state")]
+        snames = self.ctx.fields(self.ctx.state_adt)
+        if st.fields[snames.index("version")] is not self.version:
+            out.append("state.version")
+        return out
 
     def kinds_of(self, sref):
         cell = sref.fields[0]
